@@ -159,7 +159,7 @@ func run(p Plan) (vk.Outcome, error) {
 		eff = runtime.GOMAXPROCS(-1)
 	}
 	bound := eff + 1
-	if p.Buf > 1<<40 {
+	if p.Buf > 1<<30 {
 		bound = math.MaxInt
 	} else if p.Buf > 0 {
 		bound += p.Buf
